@@ -274,7 +274,39 @@ func isErrorReturn(info *types.Info, body *ast.BlockStmt, r *ast.ReturnStmt) int
 		if obj == nil {
 			return 0
 		}
-		return astx.ErrNonNilFact(info, astx.FactsAt(info, body, r.Pos()), obj)
+		if v := astx.ErrNonNilFact(info, astx.FactsAt(info, body, r.Pos()), obj); v != 0 {
+			return v
+		}
+		// the variable's only definition is an error constructor call: err := newErrX(...)
+		defs, ctor := 0, 0
+		ast.Inspect(body, func(n ast.Node) bool {
+			as, ok := n.(*ast.AssignStmt)
+			if !ok {
+				return true
+			}
+			for i, l := range as.Lhs {
+				id, ok := l.(*ast.Ident)
+				if !ok || info.ObjectOf(id) != obj {
+					continue
+				}
+				defs++
+				if len(as.Lhs) == len(as.Rhs) {
+					if call, ok := ast.Unparen(as.Rhs[i]).(*ast.CallExpr); ok {
+						if f := astx.Callee(info, call); f != nil {
+							n := f.Name()
+							if n == "Errorf" || n == "New" || strings.HasPrefix(n, "NewErr") || strings.HasPrefix(n, "newErr") {
+								ctor++
+							}
+						}
+					}
+				}
+			}
+			return true
+		})
+		if defs > 0 && defs == ctor {
+			return 1
+		}
+		return 0
 	case *ast.CallExpr:
 		// constructor of an error value (fmt.Errorf, errors.New, NewErrX, newErrX ...)
 		if t := info.TypeOf(e); t != nil {
